@@ -31,10 +31,12 @@ class World:
         self.x, self.y = Column('x', 'int'), Column('y', 'int')
         self.U.add_column(self.x)
         self.U.add_column(self.y)
+        self.V = Table('t', schema='s2')
+        self.V.add_column(Column('z', 'int'))
         self.E = Enum('e', [EnumItem('i')])
         self.I = Index(subjects=[self.a])
         self.T.add_index(self.I)
-        for o in (self.T, self.U, self.E):
+        for o in (self.T, self.U, self.V, self.E):
             self.D.add(o)
         self.R = Reference('>', [self.a, self.b], [self.x, self.y])
         self.D.add(self.R)
@@ -66,6 +68,8 @@ class World:
             self.T.add_column(self.b)
         elif op == 'add_b_to_U':
             self.U.add_column(self.b)
+        elif op == 'add_b_to_V':
+            self.V.add_column(self.b)
         elif op == 'set_inline':
             self.R.inline = True
         elif op == 'unset_inline':
